@@ -22,13 +22,15 @@ EXPLANATION = (
     "engine-level input matrix is distributed column i -> variable i for 0-, 1- and 2-dimensional inputs; the "
     "fill-forward loop carries its filler from row to row; kernels apply Python operators to their operands only after scalar() / "
     "numpy coercion and never through a re-interpreting view (V8); input values reach the variables through the clipping property, and "
-    "only the property setter writes the backing field (who-may-write)"
+    "only the property setter writes the backing field (who-may-write); V9 - a shape lattice (dimensions 1, n = batch rows, r = sample points) is pushed "
+    "through every kernel, Activated/Aggregated.membership and the seven defuzzifiers: a batch keeps its row dimension, meets the sampling "
+    "dimension only by column-against-row broadcasting, and every defuzzifier maps degrees (n,) to (n,) and () to ()"
 )
 ASSUMPTIONS = [
     "numpy ufuncs, np.where and arithmetic operators are elementwise; numeric equality of the two modes is not decided",
     "values typed float (term parameters, ranges, thresholds) are single numbers",
 ]
-FLOORS = {"V1": 90, "V2": 1, "V3": 6, "V4": 2, "V5": 2, "V6": 40, "V8": 50}
+FLOORS = {"V1": 90, "V2": 1, "V3": 6, "V4": 2, "V5": 2, "V6": 40, "V8": 50, "V9": 200}
 
 SCALAR_ATTRS = {"value", "_value", "degree", "_degree", "activation_degree", "triggered"}
 SAFE_ATTRS = {"size", "ndim", "shape", "dtype", "name", "__name__", "enabled", "height", "lock_range", "lock_previous"}
@@ -382,6 +384,7 @@ def run(check: Check) -> None:
     inplace_writes(check, scope)
     input_values(check)
     fill_forward(check)
+    shapes(check)
     from .common import who_may_write
 
     who_may_write(check, "V3", "_value", {"Variable.value.setter"}, "a batch and its rows must be range-locked by the same code")
@@ -633,3 +636,180 @@ def fill_forward(check: Check) -> None:
     from . import c12
 
     c12.cascade(FilteredCheck(check, {"O5": "V4"}))  # type: ignore[arg-type]
+
+
+# ------------------------------------------------------------------------------------------------ V9 shapes
+def shapes(check: Check) -> None:
+    """V9 [E on the shape lattice]: a batch of n rows keeps its row dimension through the pipeline and never meets the sampling dimension
+    r except by broadcasting a column against a row (sa/shape.py):
+      kernels (term.membership / tsukamoto, norm.compute, hedge.hedge) return the broadcast shape of their operands;
+      Activated.membership: degrees () / (n,) against sample points (1, r) give (r,) / (n, r); against a single point, () / (n,);
+      Aggregated.membership folds those without changing the shape;
+      the integral defuzzifiers reduce (n, r) to (n,) and (r,) to (); the weighted defuzzifiers map degrees (n,) to (n,) and () to ().
+    A definite mismatch (`n` meeting `r`, a reduction along the wrong axis, a missing / extra squeeze) is a violation; shapes the lattice
+    does not model are counted as undecided."""
+    from ..absint import return_term
+    from ..shape import TOP, ShapeError, ShapeEval, broadcast, fmt
+
+    p = check.program
+    SELF = ("param", "self")
+    undecided = 0
+
+    def run_case(fn, term: Term, env_map: dict, hook, want: tuple, construct: str, what: str) -> None:
+        nonlocal undecided
+
+        def env(t: Term):
+            if t in env_map:
+                return env_map[t]
+            if t[0] == "attr" and t[1] == SELF and t not in env_map:
+                return env_map.get(("self-attrs",), None)
+            return None
+
+        se = ShapeEval(env, hook)
+        try:
+            got = se.ev(term)
+        except ShapeError as ex:
+            check.violation("V9", construct, f"{what}: {ex}", loc(fn))
+            return
+        if got == TOP:
+            undecided += 1
+            check.ok("V9", construct, f"{what}: undecided (not modelled: {se.unknown[:2]})", loc(fn))
+            return
+        check.require(got == want, "V9", construct, f"{what}: result has shape {fmt(got)}" + ("" if got == want else f", specified {fmt(want)}"), loc(fn),
+                      exhaustive=True, cases=1)
+
+    def nested_kernel_hook(t: Term, se):
+        # Sigmoid(...).membership(x) / any <object>.membership(x) of a term built in place: elementwise in its argument
+        f = t[1]
+        if f[0] == "attr" and f[2] in ("membership", "tsukamoto") and t[2]:
+            return se.ev(t[2][0])
+        return None
+
+    # 1. kernels
+    base = p.cls("Term")
+    kernels = []
+    for c in p.subclasses("Term"):
+        if c.name in ("Linear", "Function", "Aggregated", "Activated"):
+            continue
+        for m in ("membership", "tsukamoto"):
+            f = c.methods.get(m)
+            if f is not None and not f.is_abstract:
+                kernels.append((c, m, f, 1))
+    for bname, m in (("Norm", "compute"), ("Hedge", "hedge")):
+        for c in p.subclasses(bname):
+            f = c.methods.get(m)
+            if f is not None and not f.is_abstract and c.name not in ("NormLambda", "NormFunction", "HedgeLambda", "HedgeFunction"):
+                kernels.append((c, m, f, 2 if m == "compute" else 1))
+    for c, m, f, arity in kernels:
+        check.analysed(f)
+        try:
+            t = return_term(p, c, m)
+        except AnalysisError:
+            continue
+        prm = [("param", q.name) for q in f.params[1:1 + arity]]
+        if len(prm) < arity:
+            continue
+        if arity == 1:
+            cases = [((), ()), (("n",), ("n",)), ((1, "r"), (1, "r")), (("n", "r"), ("n", "r"))]
+            for s, want in cases:
+                run_case(f, t, {prm[0]: s, ("self-attrs",): ()}, nested_kernel_hook, want, f"{c.name}.{m}/shape{fmt(s)}", f"{c.name}.{m} on an argument of shape {fmt(s)}")
+        else:
+            cases2 = [((), ()), (("n",), ("n",)), (("n", 1), (1, "r")), ((), (1, "r")), (("n", "r"), ("n", "r"))]
+            for a, b in cases2:
+                run_case(f, t, {prm[0]: a, prm[1]: b, ("self-attrs",): ()}, nested_kernel_hook, broadcast(a, b), f"{c.name}.{m}/shape{fmt(a)}x{fmt(b)}",
+                         f"{c.name}.{m} on operands of shapes {fmt(a)} and {fmt(b)}")
+
+    # 2. Activated.membership
+    act = p.cls("Activated")
+    fa = act.methods["membership"]
+    check.analysed(fa)
+    ta = return_term(p, act, "membership")
+    xa = ("param", fa.params[1].name)
+    ACT = {((), (1, "r")): ("r",), (("n",), (1, "r")): ("n", "r"), (("n",), ()): ("n",), ((), ()): ()}
+
+    def act_hook(t: Term, se):
+        f = t[1]
+        if f[0] == "attr" and f[2] == "membership" and f[1] == ("attr", SELF, "term"):
+            return se.ev(t[2][0])
+        if f[0] == "attr" and f[2] == "compute" and f[1] == ("attr", SELF, "implication"):
+            return broadcast(*[se.ev(a) for a in t[2]])
+        return None
+
+    for (d, x), want in ACT.items():
+        run_case(fa, ta, {xa: x, ("attr", SELF, "degree"): d, ("attr", SELF, "_degree"): d}, act_hook, want, f"Activated.membership/degree{fmt(d)}-x{fmt(x)}",
+                 f"Activated.membership with degrees of shape {fmt(d)} at points of shape {fmt(x)}")
+
+    # 3. Aggregated.membership
+    agg = p.cls("Aggregated")
+    fg = agg.methods["membership"]
+    check.analysed(fg)
+    tg = return_term(p, agg, "membership")
+    xg = ("param", fg.params[1].name)
+    for (d, x), want in ACT.items():
+        def agg_hook(t: Term, se, d=d, x=x):
+            f = t[1]
+            if f[0] == "attr" and f[2] == "membership" and any(s_[0] == "elem" for s_ in walk(f[1])):
+                if se.ev(t[2][0]) != x:
+                    return None
+                return ACT[(d, x)]
+            if f[0] == "attr" and f[2] == "compute" and f[1] == ("attr", SELF, "aggregation"):
+                return broadcast(*[se.ev(a) for a in t[2]])
+            return None
+
+        run_case(fg, tg, {xg: x}, agg_hook, want, f"Aggregated.membership/degree{fmt(d)}-x{fmt(x)}",
+                 f"Aggregated.membership over activations with degrees {fmt(d)} at points {fmt(x)}")
+
+    # 4. integral defuzzifiers
+    for cname in ("Bisector", "Centroid", "LargestOfMaximum", "MeanOfMaximum", "SmallestOfMaximum"):
+        c = p.cls(cname)
+        f = c.methods["defuzzify"]
+        check.analysed(f)
+        t = return_term(p, c, "defuzzify")
+        tparam = ("param", f.params[1].name)
+        for d, want in (((), ()), (("n",), ("n",))):
+            def int_hook(t_: Term, se, d=d, tparam=tparam):
+                f_ = t_[1]
+                if f_ == ("global", "fuzzylite.operation.Operation.midpoints"):
+                    return ("r",)
+                if f_[0] == "attr" and f_[2] == "membership" and f_[1] == tparam and t_[2]:
+                    xs = se.ev(t_[2][0])
+                    return ACT.get((d, xs))
+                return None
+
+            run_case(f, t, {}, int_hook, want, f"{cname}.defuzzify/degrees{fmt(d)}", f"{cname}.defuzzify of a fuzzy set activated with degrees of shape {fmt(d)}")
+
+    # 5. weighted defuzzifiers
+    for cname in ("WeightedAverage", "WeightedSum"):
+        c = p.cls(cname)
+        f = c.methods["defuzzify"]
+        check.analysed(f)
+        t = return_term(p, c, "defuzzify")
+        for d, want in (((), ()), (("n",), ("n",))):
+            def w_env_hook(t_: Term, se, d=d):
+                f_ = t_[1]
+                if f_[0] == "call" and t_[2]:  # <term>.__getattribute__(name)(w) / getattr(term, name)(w): elementwise in w
+                    return se.ev(t_[2][0])
+                if f_[0] == "attr" and f_[2] in ("membership", "tsukamoto") and t_[2]:
+                    return se.ev(t_[2][0])
+                return None
+
+            def w_env(t_: Term, d=d):
+                if t_[0] == "attr" and t_[2] in ("degree", "_degree"):
+                    return d
+                if t_[0] == "attr" and t_[2] == "terms":
+                    return ("k",)
+                return None
+
+            se = ShapeEval(w_env, w_env_hook)
+            try:
+                got = se.ev(t)
+            except ShapeError as ex:
+                check.violation("V9", f"{cname}.defuzzify/degrees{fmt(d)}", f"{cname}.defuzzify with degrees {fmt(d)}: {ex}", loc(f))
+                continue
+            if got == TOP:
+                undecided += 1
+                check.ok("V9", f"{cname}.defuzzify/degrees{fmt(d)}", f"{cname}.defuzzify with degrees {fmt(d)}: undecided ({se.unknown[:2]})", loc(f))
+                continue
+            check.require(got == want, "V9", f"{cname}.defuzzify/degrees{fmt(d)}", f"{cname}.defuzzify with degrees of shape {fmt(d)}: result has shape {fmt(got)}"
+                          + ("" if got == want else f", specified {fmt(want)}"), loc(f), exhaustive=True, cases=1)
+    check.notes.append(f"V9: {undecided} shape case(s) undecided (outside the lattice)")
